@@ -1,6 +1,6 @@
 ------------------------------ MODULE MC_C20b ------------------------------
 (* C20, spatial queries on shapes: voxelisation and active control points.   *)
-EXTENDS Ops, Lattice, TLC, Json
+EXTENDS Ops, Lattice, Extras, TLC, Json
 CONSTANTS MaxVox, Seed
 VARIABLES sh, out
 vars == <<sh, out>>
@@ -27,6 +27,16 @@ VoxGrid(bb, gs) ==
         LET z == x - 1 iw == z % Len(ax[3]) iv == (z \div Len(ax[3])) % Len(ax[2]) iu == z \div (Len(ax[3]) * Len(ax[2]))
             lo == <<ax[1][iu + 1], ax[2][iv + 1], ax[3][iw + 1]>>
         IN <<lo, VAdd(lo, step)>>])
+\* use_cubes = TRUE: every axis uses the smallest of the three steps; the corner values of an axis are those of
+\* linalg.frange(lo, hi, step) (Extras!FRange: it may end up to half a step beyond hi)
+RMin3(a, b, c) == RMin(a, RMin(b, c))
+VoxGridCubes(bb, gs) ==
+  LET st == RMin3(RDiv(RSub(bb[2][1], bb[1][1]), RI(gs[1] - 1)), RDiv(RSub(bb[2][2], bb[1][2]), RI(gs[2] - 1)), RDiv(RSub(bb[2][3], bb[1][3]), RI(gs[3] - 1)))
+      ax == TLCEval([k \in 1..3 |-> FRange(bb[1][k], bb[2][k], st)])
+  IN TLCEval([x \in 1..(Len(ax[1]) * Len(ax[2]) * Len(ax[3])) |->
+        LET z == x - 1 iw == z % Len(ax[3]) iv == (z \div Len(ax[3])) % Len(ax[2]) iu == z \div (Len(ax[3]) * Len(ax[2]))
+            lo == <<ax[1][iu + 1], ax[2][iv + 1], ax[3][iw + 1]>>
+        IN <<lo, VAdd(lo, <<st, st, st>>)>>])
 InBox(p, v) == \A k \in 1..3 : RLe(v[1][k], p[k]) /\ RLe(p[k], v[2][k])
 \* (bound variables of a quantifier over a singleton set hold evaluated values: each is computed once)
 Voxelize(gs, ns) ==
@@ -35,15 +45,27 @@ Voxelize(gs, ns) ==
        out' = [op |-> "voxelize", gs |-> gs, ns |-> ns, grid |-> vox, bbox |-> bb,
                filled |-> [x \in 1..Len(vox) |-> IF \E i \in 1..Len(pts) : InBox(pts[i], vox[x]) THEN 1 ELSE 0]]
   /\ UNCHANGED sh
+VoxelizeCubes(gs, ns) ==
+  /\ out.op = "init" /\ PDim(sh) = 2
+  /\ \E bb \in {BBox(sh)} : \E pts \in {SampleGrid(sh, ns)} :
+       /\ \A k \in 1..3 : bb[1][k] # bb[2][k]                 \* (a flat axis gives a zero step: frange does not terminate in the library)
+       /\ \E vox \in {VoxGridCubes(bb, gs)} :
+            out' = [op |-> "voxelize", gs |-> gs, ns |-> ns, cubes |-> TRUE, grid |-> vox, bbox |-> bb,
+                    filled |-> [x \in 1..Len(vox) |-> IF \E i \in 1..Len(pts) : InBox(pts[i], vox[x]) THEN 1 ELSE 0],
+                    allin |-> \A i \in 1..Len(pts) : \E x \in 1..Len(vox) : InBox(pts[i], vox[x])]
+  /\ UNCHANGED sh
 FindCtrl(prm) == /\ out.op = "init" /\ PDim(sh) <= 2
                  /\ out' = [op |-> "find_ctrlpts", prm |-> prm, idx |-> SortedInts(ActiveIdx(sh, prm))] /\ UNCHANGED sh
 NS == IF PDim(sh) = 2 THEN {<<3, 4>>, <<5, 2>>} ELSE {<<2, 3, 2>>}
 GS == {<<2, 2, 2>>, <<2, 3, MaxVox>>, <<MaxVox, 2, 3>>} \cup (IF sh = Valley THEN {<<2, 2, 3>>, <<3, 2, 3>>} ELSE {})
-Next == (\E gs \in GS : \E ns \in NS : Voxelize(gs, ns)) \/ (\E prm \in ShapeParams(sh, 1) : FindCtrl(prm))
+Next == (\E gs \in GS : \E ns \in NS : Voxelize(gs, ns)) \/ (\E gs \in {<<2, 3, 4>>, <<3, 2, 2>>} : VoxelizeCubes(gs, <<3, 4>>)) \/ (\E prm \in ShapeParams(sh, 1) : FindCtrl(prm))
 Spec == Init /\ [][Next]_vars
 \* the grid covers the bounding box: every sample lies in some voxel, so at least one voxel is filled; corners are grid corners
 \* a voxel may be filled only through its boundary: the valley's lowest samples lie on the upper face of the bottom layer
 T_Touching == out.op = "voxelize" /\ sh = Valley /\ out.gs[3] = 3 => \E x \in 1..Len(out.grid) : out.filled[x] = 1 /\ out.grid[x][2][3] = One
+\* cubes still cover every sampled point (no gaps between neighbouring cubes)
+T_CubesCover == out.op = "voxelize" /\ "cubes" \in DOMAIN out => out.allin /\ \A x \in 1..Len(out.grid) : \A k \in 1..3 :
+                   RSub(out.grid[x][2][k], out.grid[x][1][k]) = RSub(out.grid[x][2][1], out.grid[x][1][1])
 T_Covers == out.op = "voxelize" =>
    /\ \E x \in 1..Len(out.filled) : out.filled[x] = 1
    /\ out.grid[1][1] = out.bbox[1]
